@@ -632,8 +632,10 @@ mod if_alloc {
 
     // Safety: Futures can be sent between threads as long as the underlying
     // semaphore is thread-safe (Sync), which allows to poll/register/unregister from
-    // a different thread.
-    unsafe impl<MutexType: RawMutex + Sync> Send
+    // a different thread. The future holds a reference counted handle and might
+    // be the last owner, which destroys the semaphore on the receiving thread.
+    // Therefore the mutex also needs to be Send.
+    unsafe impl<MutexType: RawMutex + Send + Sync> Send
         for GenericSharedSemaphoreAcquireFuture<MutexType>
     {
     }
@@ -740,8 +742,10 @@ mod if_alloc {
         for GenericSharedSemaphore<MutexType>
     {
     }
-    // The Semaphore is thread-safe as long as the utilized Mutex is thread-safe
-    unsafe impl<MutexType: RawMutex + Sync> Sync
+    // The Semaphore is thread-safe as long as the utilized Mutex is thread-safe.
+    // Since a shared reference allows to clone the handle, and the clone might
+    // be the last owner, the Mutex also needs to be Send (same as for `Arc`).
+    unsafe impl<MutexType: RawMutex + Send + Sync> Sync
         for GenericSharedSemaphore<MutexType>
     {
     }
